@@ -16,7 +16,9 @@ CHECKS = {
     "C19": dict(
         text="Theorems C19_pending_exact/success/failure/reversion/error_unchanged hold for every version table, stored version and "
              "failure position (unbounded); the model is tied to walletdb/migration by running migration.Upgrade on a real bbolt "
-             "file for a failure at every position plus random tables and comparing outcome, invoked sequence, stored version and data.",
+             "file for a failure at every position plus random tables and comparing outcome, invoked sequence, stored version and data; plus the REAL wtxmgr and "
+             "waddrmgr migration managers through wallet.Open (newer version of either component refused with the whole file unchanged, incl. the roll-back of the "
+             "other component's already applied migration in the same database transaction; the real drop-history migration applied and the latest version recorded).",
         note="Trusted: Coq kernel+vm_compute, hand-written model Migrate/Migrate.v, harness and driver; atomicity of the enclosing "
              "walletdb.Update is C11's subject (modelled here as restore-on-error). No axioms (Print Assumptions: closed).",
     ),
